@@ -37,7 +37,7 @@ def sortKeys (keys : List Point) : List Point := keys.foldr insertKey []
 
 def keyHashFingerprint (keys : List Point) (sort : Bool) : Bytes :=
   let keys := if sort then sortKeys keys else keys
-  taggedHash "KeyAgg list" (keys.flatMap serializeCompressed)
+  taggedHash tagKeyAggList (keys.flatMap serializeCompressed)
 
 /-- `secondUniqueKeyIndex`, as the key itself (none = "-1": all keys equal). -/
 def secondKey : List Point → Option Bytes
@@ -46,7 +46,7 @@ def secondKey : List Point → Option Bytes
 
 def aggregationCoefficient (second : Option Bytes) (target : Point) (keysHash : Bytes) : Nat :=
   if second == some (serializeCompressed target) then 1
-  else fromBE (taggedHash "KeyAgg coefficient" (keysHash ++ serializeCompressed target)) % n
+  else fromBE (taggedHash tagKeyAggCoeff (keysHash ++ serializeCompressed target)) % n
 
 structure AggKey where
   final : Point
@@ -78,8 +78,8 @@ def aggregateKeys (keys : List Point) (sort : Bool) (tw : TweakOpt) : Option Agg
   let q := keys.foldl (fun acc k => add acc (mul (aggregationCoefficient sk k kh) k)) .inf
   let tweaks : List Tweak := match tw with
     | .plain ts => ts
-    | .taproot root => [⟨taggedHash "TapTweak" (serializeXOnly q ++ root), true⟩]
-    | .bip86 => [⟨taggedHash "TapTweak" (serializeXOnly q), true⟩]
+    | .taproot root => [⟨taggedHash tagTapTweak (serializeXOnly q ++ root), true⟩]
+    | .bip86 => [⟨taggedHash tagTapTweak (serializeXOnly q), true⟩]
   match applyTweaks tweaks q 1 0 with
   | none => none
   | some (f, gacc, tacc) => some ⟨f, q, gacc, tacc⟩
@@ -89,15 +89,15 @@ def aggregateKeys (keys : List Point) (sort : Bool) (tw : TweakOpt) : Option Agg
 /-- `GenNonces` with the random reader fixed to `rand` (32 bytes): (secnonce, pubnonce). -/
 def genNonces (rand pk : Bytes) (sk aggpk : Bytes) (msg : Option Bytes) (aux : Bytes) : Option (Bytes × Bytes) :=
   if pk.length ≠ 33 then none else
-  let rand := if sk.length = 32 then xorBytes sk (taggedHash "MuSig/aux" rand) else rand
+  let rand := if sk.length = 32 then xorBytes sk (taggedHash tagMusigAux rand) else rand
   let body (i : Nat) : Bytes :=
     rand ++ [UInt8.ofNat pk.length] ++ pk ++ [UInt8.ofNat aggpk.length] ++ aggpk ++
       (match msg with
        | none => [0]
        | some m => [1] ++ toBE 8 m.length ++ m) ++
       toBE 4 aux.length ++ aux ++ [UInt8.ofNat i]
-  let k1 := fromBE (taggedHash "MuSig/nonce" (body 0)) % n
-  let k2 := fromBE (taggedHash "MuSig/nonce" (body 1)) % n
+  let k1 := fromBE (taggedHash tagMusigNonce (body 0)) % n
+  let k2 := fromBE (taggedHash tagMusigNonce (body 1)) % n
   some (toBE 32 k1 ++ toBE 32 k2 ++ pk,
         serializeCompressed (mulG k1) ++ serializeCompressed (mulG k2))
 
@@ -130,7 +130,7 @@ def aggregateNonces (ns : List Bytes) : Option Bytes :=
 /-! ### sign.go -/
 
 def nonceCoef (aggNonce : Bytes) (q : Point) (msg : Bytes) : Nat :=
-  fromBE (taggedHash "MuSig/noncecoef" (aggNonce ++ serializeXOnly q ++ msg)) % n
+  fromBE (taggedHash tagNonceCoef (aggNonce ++ serializeXOnly q ++ msg)) % n
 
 /-- R = R1 + b·R2, replaced by G when infinite (`computeSigningNonce`) -/
 def signingNonce (aggNonce : Bytes) (q : Point) (msg : Bytes) : Option (Point × Nat) :=
